@@ -24,6 +24,9 @@ INVALID_STMT = [
 ]
 INVALID_EXPR = ['"unterminated', "/unterminated", "(1 + ", "[1, 2", '{"a": 1', "1 + ", "* 2", "a ? b ? 1 : 2 : 3", "#", "1 @ 2", "\x00",
                 "99999999999999999999", "(3 = 4)", "f(1,, 2)", ")", "if", "(a ? 1 : b ? 2 : 3)", "(1 += 2)", '("s" -= 1)', "[1 *= 2]"]
+# a ternary inside an arm of another one is a nested ternary wherever it stands there: in a call argument, an array or hash element, an index
+INVALID_EXPR += ["(a ? f(b ? 1 : 2) : 3)", "(a ? 1 : f(0, b ? 1 : 2))", "(a ? [b ? 1 : 2] : 3)", "(a ? 1 : [0, b ? 1 : 2])", '(a ? len(c ? "a" : "bb") : 3)', '(a ? {"k": b ? 1 : 2} : 3)',
+                 "(a ? x[b ? 1 : 2] : 3)", "(a ? f(g(b ? 1 : 2)) : 3)", "(a ? [[b ? 1 : 2]] : 3)"]
 # characters that are no part of the language, written BETWEEN two tokens (blanks that are not the language's four blanks included)
 INVALID_EXPR += ["1 %s+ 2" % ch for ch in ["\x0b", "\x0c", "\x85", "\xa0", "\u2028", "\u2029", "\u3000", "\u1680", "\u2003", "\ufeff", "\x01", "\x7f", "\\", "&", "|", "~", "^", "`", "\u200b", "\x1c"]]
 # positions whose expression the compiler never translates (it only prints it): the right operand of `.` and the callee of a call
